@@ -180,9 +180,9 @@ func c04Sessions() []c04Session {
 	// oversized body is skipped by the wrong amount, the reader resumes inside that payload
 	frame := pgproto.Query("smuggled")
 	payload := bytes.Repeat(frame, 700)
-	for k := 1; k <= len(frame); k++ {
+	for k := 1; k <= 2*len(frame); k++ {
 		out = append(out, c04Session{Name: fmt.Sprintf("oversized by %d then a payload of framed queries", k), NoPrefix: true,
-			Segs: [][]byte{pgproto.Startup("user", "u"), pgproto.Msg('Q', make([]byte, c04Limit+k)), pgproto.Msg('d', payload[:8000]), pgproto.Query(progRows)}})
+			Segs: [][]byte{pgproto.Startup("user", "u"), pgproto.Msg('Q', make([]byte, c04Limit+k)), pgproto.Msg('d', payload[:8000]), pgproto.Msg('d', payload[:8000]), pgproto.Msg('d', payload[:8000]), pgproto.Query(progRows)}})
 	}
 	bodies := c04Bodies()
 	starts := []struct {
